@@ -22,7 +22,7 @@ Does not decide: behavioural equivalence with a single-level configuration; seve
 import ast
 
 from ..flow import Facts, callee_text
-from ..model import AnalysisError, norm, walk_function
+from ..model import AnalysisError, norm, walk_function, expand_text
 from ..report import Result
 from ..ruletable import UNKNOWN, strip
 from ..selftest import Variant
@@ -380,7 +380,7 @@ def _siblings(r, p):
             if not (isinstance(n, ast.Expr) and isinstance(n.value, ast.Call) and isinstance(n.value.func, ast.Name)):
                 continue
             c = n.value
-            cfg_args = [i for i, a in enumerate(c.args) if "dConfig" in norm(a)]
+            cfg_args = [i for i, a in enumerate(c.args) if "dConfig" in expand_text(fi, a)]
             if not cfg_args:
                 continue
             ent = p.resolve_expr(fi.module, c.func)
